@@ -1115,7 +1115,8 @@ class NetRun:
         except BaseException as exc:  # pylint: disable=broad-except
             # (also asyncio.CancelledError, which is not an Exception)
             self.add(vio("stop-raised", {"exc": repr(exc)}, exc=type(exc).__name__))
-            self.clean_history = False
+            # (no fault is ever injected into stop()'s own save: the application stopped the gateway properly, so the
+            # guarantees "across a clean stop and restart" still apply to what follows)
         if self.link_is_down:
             self.link_is_down = False
             if self.broker is None:
